@@ -7,18 +7,178 @@ Open Scope Z_scope.
 Definition thsteps (cap q fi minlen : Z) (faults : list bool) (us : list ucall) : list (ucall * list tout) :=
   combine us (thrun (th_init cap q fi minlen faults) us).
 
+
+(* ------------------------------------------------------------------ *)
+(* the bucket operations a throttled run performs *)
+
+Definition step_ops (s : thstate) (u : ucall) : list bop :=
+  match u with
+  | UStart _ _ t1 => [BAvail t1]
+  | UWrite _ t1 t2 =>
+    if th_rec s then [BTake t1]
+    else
+      let '(s1, _, err) := maybe_start s (th_bg s) (th_thresh s) t1 in
+      BAvail t1 :: (if err then [] else if th_rec s1 then [BTake t2] else [])
+  | _ => []
+  end.
+
+Fixpoint bops_of (s : thstate) (us : list ucall) : list bop :=
+  match us with
+  | [] => []
+  | u :: r => step_ops s u ++ bops_of (fst (thstep s u)) r
+  end.
+
+Lemma write_times_app : forall a b, write_times (a ++ b) = write_times a ++ write_times b.
+Proof. intros. unfold write_times. apply flat_map_app. Qed.
+
+Lemma write_times_cons : forall x l,
+    write_times (x :: l) = match x with BWrite _ t _ => [t] | _ => [] end ++ write_times l.
+Proof. reflexivity. Qed.
+
+Ltac wt := repeat (rewrite write_times_cons || rewrite write_times_app).
+
+Lemma maybe_start_b : forall s bg th t s1 o1 err,
+    maybe_start s bg th t = (s1, o1, err) ->
+    th_b s1 = fst (available (th_b s) t) /\ write_times o1 = [].
+Proof.
+  intros s bg th t s1 o1 err. unfold maybe_start.
+  destruct (available (th_b s) t) as [b1 av].
+  destruct (av >=? th_min s).
+  - destruct (tpop (th_faults s)) as [failed f'].
+    destruct failed; intros E; inversion E; subst; cbn; auto.
+  - intros E; inversion E; subst; cbn; auto.
+Qed.
+
+Lemma th_stop_b : forall s s1 o1 err,
+    th_stop s = (s1, o1, err) -> th_b s1 = th_b s /\ write_times o1 = [].
+Proof.
+  intros s s1 o1 err. unfold th_stop.
+  destruct (th_rec s).
+  - destruct (tpop (th_faults s)) as [failed f'].
+    intros E; inversion E; subst; cbn; auto.
+  - intros E; inversion E; subst; cbn; auto.
+Qed.
+
+Lemma take1_k : forall b t, snd (take1 b t) = 0 \/ snd (take1 b t) = 1.
+Proof.
+  intros b t. unfold take1.
+  destruct (b_avail (adjust b (current_tick b t)) <=? 0); cbn; auto.
+Qed.
+
+Lemma thstep_sim : forall s u rest,
+    take_times (brun (th_b s) (step_ops s u ++ rest)) =
+    write_times (snd (thstep s u)) ++ take_times (brun (th_b (fst (thstep s u))) rest).
+Proof.
+  intros s u rest. destruct u as [|bg thresh t1|id t1 t2|]; unfold thstep, step_ops.
+  - destruct (tpop (th_faults s)) as [failed f']. reflexivity.
+  - destruct (maybe_start s bg thresh t1) as [[s1 o1] err] eqn:E.
+    destruct (maybe_start_b _ _ _ _ _ _ _ E) as [Hb Ho].
+    cbn [app brun]. destruct (available (th_b s) t1) as [b1 av]. cbn [fst] in Hb.
+    rewrite take_times_cons. cbn [fst snd]. change (0 =? 1) with false. cbn [app].
+    destruct err; cbn [fst snd th_b]; wt; rewrite ?Ho, ?Hb.
+    + reflexivity.
+    + destruct (th_rec s1); reflexivity.
+  - destruct (th_rec s) eqn:Hrec; cbn [negb].
+    + cbn [app brun].
+      destruct (take1_k (th_b s) t1) as [Hk | Hk];
+        destruct (take1 (th_b s) t1) as [b2 k]; cbn [snd] in Hk; subst k;
+        rewrite take_times_cons; cbn [fst snd].
+      * change (0 =? 1) with false. change (0 >? 0) with false. cbn [app].
+        destruct (th_stop _) as [[s3 o3] serr] eqn:Es.
+        destruct (th_stop_b _ _ _ _ Es) as [Hb Ho]. cbn [th_b] in Hb.
+        cbn [fst snd]. wt; rewrite ?Ho, ?Hb. reflexivity.
+      * change (1 =? 1) with true. change (1 >? 0) with true. cbn [app].
+        destruct (tpop _) as [failed f']. reflexivity.
+    + destruct (maybe_start s (th_bg s) (th_thresh s) t1) as [[s1 o1] err] eqn:E.
+      destruct (maybe_start_b _ _ _ _ _ _ _ E) as [Hb Ho].
+      cbn [app brun]. destruct (available (th_b s) t1) as [b1 av]. cbn [fst] in Hb.
+      rewrite take_times_cons. cbn [fst snd]. change (0 =? 1) with false. cbn [app].
+      destruct err.
+      * cbn [fst snd app]. wt; rewrite ?Ho, ?Hb. reflexivity.
+      * destruct (th_rec s1) eqn:Hrec1; cbn [negb].
+        -- cbn [app brun]. rewrite <- Hb.
+           destruct (take1_k (th_b s1) t2) as [Hk | Hk];
+             destruct (take1 (th_b s1) t2) as [b2 k]; cbn [snd] in Hk; subst k;
+             rewrite take_times_cons; cbn [fst snd].
+           ++ change (0 =? 1) with false. change (0 >? 0) with false. cbn [app].
+              destruct (th_stop _) as [[s3 o3] serr] eqn:Es.
+              destruct (th_stop_b _ _ _ _ Es) as [Hb' Ho']. cbn [th_b] in Hb'.
+              cbn [fst snd]. wt; rewrite ?Ho, ?Ho', ?Hb'. reflexivity.
+           ++ change (1 =? 1) with true. change (1 >? 0) with true. cbn [app].
+              destruct (tpop _) as [failed f']. cbn [fst snd th_b].
+              wt; rewrite ?Ho. reflexivity.
+        -- cbn [fst snd app]. wt; rewrite ?Ho, ?Hb. reflexivity.
+  - destruct (th_stop s) as [[s1 o1] err] eqn:Es.
+    destruct (th_stop_b _ _ _ _ Es) as [Hb Ho].
+    cbn [fst snd app]. wt; rewrite ?Ho, ?Hb. reflexivity.
+Qed.
+
+Lemma thrun_sim : forall us s,
+    write_times (concat (thrun s us)) = take_times (brun (th_b s) (bops_of s us)).
+Proof.
+  induction us as [|u r IH]; intros s; [reflexivity|].
+  cbn [thrun bops_of]. rewrite thstep_sim.
+  destruct (thstep s u) as [s' o]. cbn [fst snd concat].
+  rewrite write_times_app, IH. reflexivity.
+Qed.
+
+Lemma thrun_length : forall us s, length (thrun s us) = length us.
+Proof.
+  induction us as [|u r IH]; intros s; [reflexivity|].
+  cbn [thrun]. destruct (thstep s u) as [s' o]. cbn [length]. rewrite IH. reflexivity.
+Qed.
+
+Lemma flat_map_snd_combine : forall (A B : Type) (l : list A) (outs : list (list B)),
+    length outs = length l -> flat_map snd (combine l outs) = concat outs.
+Proof.
+  intros A B. induction l as [|a l IH]; intros [|o outs] H; try discriminate; [reflexivity|].
+  cbn [combine flat_map snd concat]. rewrite IH by (cbn in H; congruence). reflexivity.
+Qed.
+
+Lemma sorted_from_weaken : forall l lo lo',
+    lo' <= lo -> sorted_from lo l = true -> sorted_from lo' l = true.
+Proof.
+  intros [|x r] lo lo' Hle H; [reflexivity|].
+  cbn [sorted_from] in *. apply andb_prop in H. destruct H as [H1 H2].
+  apply Z.leb_le in H1. rewrite H2. replace (lo' <=? x) with true; [reflexivity|].
+  symmetry. apply Z.leb_le. lia.
+Qed.
+
+Lemma bops_sorted : forall us s lo,
+    sorted_from lo (flat_map readings us) = true ->
+    sorted_from lo (map bop_time (bops_of s us)) = true.
+Proof.
+  induction us as [|u r IH]; intros s lo H; [reflexivity|].
+  cbn [flat_map bops_of] in *. rewrite map_app.
+  destruct u as [|bg thresh t1|id t1 t2|]; cbn [readings app step_ops map] in *.
+  - apply IH. exact H.
+  - cbn [bop_time sorted_from] in *. apply andb_prop in H. destruct H as [H1 H2].
+    rewrite H1. cbn [andb]. apply IH. exact H2.
+  - cbn [sorted_from] in H. apply andb_prop in H. destruct H as [H1 H].
+    apply andb_prop in H. destruct H as [H2 H3].
+    assert (H3' : sorted_from t1 (flat_map readings r) = true)
+      by (apply (sorted_from_weaken _ t2); [apply Z.leb_le; exact H2 | exact H3]).
+    destruct (th_rec s).
+    + cbn [map app bop_time sorted_from]. rewrite H1. cbn [andb]. apply IH. exact H3'.
+    + destruct (maybe_start s (th_bg s) (th_thresh s) t1) as [[s1 o1] err].
+      destruct err; [|destruct (th_rec s1)];
+        cbn [map app bop_time sorted_from]; rewrite H1; cbn [andb]; try rewrite H2; cbn [andb];
+        apply IH; assumption.
+  - apply IH. exact H.
+Qed.
+
 (* C05: for every upstream call sequence whatsoever (well-formed or not), every base-recorder
    fault script, every non-decreasing clock: all windows of forwarded writes obey the bound *)
 Theorem S05_holds : forall cap q fi minlen faults us,
     1 <= cap -> 1 <= q -> 1 <= fi ->
     monotone us = true ->
     S05 cap q fi (thsteps cap q fi minlen faults us) = true.
-Admitted.
+Proof.
+  intros cap q fi minlen faults us Hcap Hq Hfi Hmono.
+  unfold S05, thsteps.
+  rewrite flat_map_snd_combine by apply thrun_length.
+  rewrite thrun_sim. unfold th_init at 1. cbn [th_b].
+  apply bucket_windows; try assumption.
+  apply bops_sorted. exact Hmono.
+Qed.
 
-(* C06: conforming upstream sequences, non-decreasing clock, base start/write/stop failing anywhere *)
-Theorem S06_holds : forall cap q fi minlen faults us,
-    1 <= cap -> 1 <= q -> 1 <= fi ->
-    monotone us = true ->
-    conforming (thsteps cap q fi minlen faults us) = true ->
-    S06 minlen (thsteps cap q fi minlen faults us) = true.
-Admitted.
